@@ -33,6 +33,7 @@ pub mod datalog2 {
     impl Clone for Fact { #[verifier::external_body] fn clone(&self) -> (r: Self) ensures r == *self { unimplemented!() } }
     #[verifier::external_body] pub struct Check { _p: u8 }
     pub struct PublicKeys { pub keys: Vec<crate::crypto::PublicKey> }
+    impl Clone for PublicKeys { #[verifier::external_body] fn clone(&self) -> (r: Self) ensures r == *self { unimplemented!() } }
     pub struct SymbolTable { pub public_keys: PublicKeys, pub verif_rest: u64 }
     impl PublicKeys {
         // ASSUMED (iter().position(closure)): the index of the first equal key, appended when absent
@@ -167,7 +168,7 @@ pub mod authorizer_builder {
     //@ loop 1 invariant stored: forall|k: int| 0 <= k < it1.index@ ==> fs_view(world.facts).contains((set![i], *final(#[trigger] it1.seq()[k])))
     //@ loop 1 invariant kept: forall|p: (Set<usize>, Fact)| fs_view(old(world).facts).contains(p) ==> fs_view(world.facts).contains(p)
     //@ loop 1 invariant origin: forall|p: (Set<usize>, Fact)| fs_view(world.facts).contains(p) && !fs_view(old(world).facts).contains(p) ==> p.0 == set![i]
-    //@ loop 1 invariant frame: world.rules == old(world).rules && *public_key_to_block_id == *old(public_key_to_block_id) && block_origin.inner@ =~= set![i]
+    //@ loop 1 invariant frame: world.rules == old(world).rules && *public_key_to_block_id == *old(public_key_to_block_id) && block_origin.inner@ =~= set![i] && world.iterations == old(world).iterations && world.extern_funcs == old(world).extern_funcs
     //@ ghost after_loop 1 :: let ghost facts1 = world.facts; proof { assert forall|k: int| 0 <= k < block.facts@.len() implies (#[trigger] fact_from(old(block).facts@[k], src)) is Ok by { let x = block.facts@[k]; } }
     //@ loop 2 ghost it2
     //@ loop 2 invariant elems: it2.seq().len() == old(block).rules@.len() && forall|k: int| 0 <= k < it2.seq().len() ==> *(#[trigger] it2.seq()[k]) == old(block).rules@[k]
@@ -175,12 +176,14 @@ pub mod authorizer_builder {
     //@ loop 2 invariant stored: forall|k: int| 0 <= k < it2.index@ ==> rule_stored(world.rules, i, *final(#[trigger] it2.seq()[k]), bs, m)
     //@ loop 2 invariant kept: forall|e: (usize, Set<usize>, Rule)| rs_view(old(world).rules).contains(e) ==> rs_view(world.rules).contains(e)
     //@ loop 2 invariant scope: forall|e: (usize, Set<usize>, Rule)| rs_view(world.rules).contains(e) && !rs_view(old(world).rules).contains(e) ==> e.0 == i && has_tset(e.1, e.2.scopes@, block_trust(bs, i, m), i, m)
-    //@ loop 2 invariant frame: world.facts == facts1 && *public_key_to_block_id == *old(public_key_to_block_id)
+    //@ loop 2 invariant frame: world.facts == facts1 && *public_key_to_block_id == *old(public_key_to_block_id) && world.iterations == old(world).iterations && world.extern_funcs == old(world).extern_funcs
     //@ ghost before "world.rules.insert(" :: proof { lemma_tset(rule_trusted_origins.0.inner@, rule.scopes@, block_trust(bs, i, m), i, m); }
     //@ ghost after_loop 2 :: let ghost w2 = *world;
     //@ loop 3 ghost it3
     //@ loop 3 invariant frame: *world == w2 && *public_key_to_block_id == *old(public_key_to_block_id)
     //@ ensures key_map_untouched: *final(public_key_to_block_id) == *old(public_key_to_block_id)
+    //@ ensures external_key_kept: final(block).external_key == old(block).external_key
+    //@ ensures world_counters: final(world).iterations == old(world).iterations && final(world).extern_funcs == old(world).extern_funcs
     //@ ensures facts_origin: r is Ok ==> forall|p: (Set<usize>, Fact)| fs_view(final(world).facts).contains(p) && !fs_view(old(world).facts).contains(p) ==> p.0 == set![i]
     //@ ensures facts_complete: r is Ok ==> forall|k: int| 0 <= k < final(block).facts@.len() ==> fs_view(final(world).facts).contains((set![i], #[trigger] final(block).facts@[k]))
     //@ ensures facts_kept: forall|p: (Set<usize>, Fact)| fs_view(old(world).facts).contains(p) ==> fs_view(final(world).facts).contains(p)
@@ -220,8 +223,15 @@ pub mod authorizer2 {
     use crate::ospec::*;
     use crate::lspec::*;
     broadcast use {crate::error::qm_axioms, vstd::std_specs::hash::group_hash_axioms};
-    #[verifier::external_body] pub struct AuthorizerLimits { _p: u8 }
-    #[verifier::external_body] pub struct Duration { _p: u8 }
+    // stand-in for std::time::Duration (nanoseconds) and the real run limits
+    pub struct Duration { pub nanos: u64 }
+    impl Duration {
+        #[verifier::external_body] pub fn from_nanos(n: u64) -> (r: Duration) ensures r.nanos == n { unimplemented!() }
+    }
+    impl Clone for Duration { #[verifier::external_body] fn clone(&self) -> (r: Self) ensures r == *self { unimplemented!() } }
+    impl Copy for Duration {}
+    pub struct RunLimits { pub max_facts: u64, pub max_iterations: u64, pub max_time: Duration }
+    pub type AuthorizerLimits = RunLimits;
 
     //@extract biscuit-auth/src/token/authorizer.rs :: struct Authorizer
     //@end
@@ -284,6 +294,153 @@ pub mod authorizer2 {
         //@ ensures auth_facts: r is Ok ==> (forall|p: (Set<usize>, Fact)| fs_view(r->Ok_0.world.facts).contains(p) && p.0.contains(usize::MAX) ==> p.0 == set![usize::MAX]) && forall|k: int| 0 <= k < self.authorizer_block_builder.facts@.len() ==> fs_view(r->Ok_0.world.facts).contains((set![usize::MAX], fact_to(#[trigger] self.authorizer_block_builder.facts@[k])))
         //@ ensures auth_rules: r is Ok ==> (forall|e: (usize, Set<usize>, Rule)| rs_view(r->Ok_0.world.rules).contains(e) && e.0 == usize::MAX ==> has_tset(e.1, e.2.scopes@, authz_trust(self.authorizer_block_builder.scopes@, r->Ok_0.public_key_to_block_id@), usize::MAX, r->Ok_0.public_key_to_block_id@)) && forall|k: int| 0 <= k < self.authorizer_block_builder.rules@.len() ==> auth_rule_stored(r->Ok_0.world.rules, conv_rule(#[trigger] self.authorizer_block_builder.rules@[k]), authz_trust(self.authorizer_block_builder.scopes@, r->Ok_0.public_key_to_block_id@), r->Ok_0.public_key_to_block_id@)
         //@ ensures fresh: r is Ok ==> r->Ok_0.execution_time is None && r->Ok_0.world.iterations == 0 && r->Ok_0.limits == self.limits && r->Ok_0.policies == self.policies && r->Ok_0.authorizer_block_builder == self.authorizer_block_builder
+        //@end
+    }
+}
+pub mod snapshot {
+    // token/authorizer/snapshot.rs: restoring an authorizer from (untrusted) snapshot bytes
+    use vstd::prelude::*;
+    use crate::verif_std::*;
+    use crate::builder::{BlockBuilder, Policy, Fact as BFact2, Rule as BRule, Scope as BScope, conv_rule, conv_scope, fact_to};
+    use crate::token2::Block;
+    use crate::datalog2 as datalog;
+    use crate::datalog2::{SymbolTable, World, ExternFunc, Fact, Rule, fs_view, rs_view};
+    use crate::datalog::origin::{Origin, TrustedOrigins};
+    use crate::authorizer2::{Authorizer, Duration, RunLimits, verif_map_push};
+    use crate::authorizer_builder::load_and_translate_block;
+    use crate::crypto::PublicKey;
+    use crate::error;
+    use crate::token;
+    use std::collections::HashMap;
+    use crate::ospec::*;
+    use crate::lspec::*;
+    broadcast use {crate::error::qm_axioms, vstd::std_specs::hash::group_hash_axioms};
+    pub const MIN_SCHEMA_VERSION: u32 = 3;
+    pub const MAX_SCHEMA_VERSION: u32 = 6;
+    pub mod schema {
+        use vstd::prelude::*;
+        //@extract biscuit-auth/src/format/schema.rs :: struct AuthorizerSnapshot
+        //@end
+        //@extract biscuit-auth/src/format/schema.rs :: struct RunLimits
+        //@end
+        //@extract biscuit-auth/src/format/schema.rs :: struct AuthorizerWorld
+        //@end
+        //@extract biscuit-auth/src/format/schema.rs :: struct GeneratedFacts
+        //@end
+        #[verifier::external_body] pub struct PublicKey { _p: u8 }
+        // stand-in for schema::SnapshotBlock: the field from_snapshot reads
+        pub struct SnapshotBlock { pub external_key: Option<PublicKey>, pub verif_rest: u64 }
+        #[verifier::external_body] pub struct Policy { _p: u8 }
+        #[verifier::external_body] pub struct Origin { _p: u8 }
+        #[verifier::external_body] pub struct FactV2 { _p: u8 }
+    }
+    use schema::GeneratedFacts;
+    // ASSUMED (conversion code, fmt / prost / iterator chains): fallible, total
+    #[verifier::external_body] pub fn default_symbol_table() -> (r: SymbolTable) { unimplemented!() }
+    #[verifier::external_body] pub fn proto_snapshot_block_to_token_block(b: &schema::SnapshotBlock) -> Result<Block, error::Format> { unimplemented!() }
+    #[verifier::external_body] pub fn proto_fact_to_token_fact(f: &schema::FactV2) -> Result<Fact, error::Format> { unimplemented!() }
+    #[verifier::external_body] pub fn proto_origin_to_authorizer_origin(o: &Vec<schema::Origin>) -> Result<Origin, error::Format> { unimplemented!() }
+    #[verifier::external_body] pub fn verif_policies_from(p: &Vec<schema::Policy>, symbols: &SymbolTable, version: u32) -> Result<Vec<Policy>, error::Format> { unimplemented!() }
+    // `Some(execution_time).filter(|_| execution_time > Duration::default())`
+    #[verifier::external_body] pub fn verif_nonzero(d: Duration) -> (r: Option<Duration>) ensures r == (if d.nanos > 0 { Some(d) } else { None::<Duration> }) { unimplemented!() }
+    impl PublicKey { #[verifier::external_body] pub fn from_proto(k: &schema::PublicKey) -> Result<PublicKey, error::Format> { unimplemented!() } }
+    impl SymbolTable { #[verifier::external_body] pub fn insert(&mut self, s: &String) -> u64 { unimplemented!() } }
+    impl BlockBuilder { #[verifier::external_body] pub fn convert_from(block: &Block, symbols: &SymbolTable) -> Result<BlockBuilder, error::Format> { unimplemented!() } }
+    impl crate::builder::Fact { #[verifier::external_body] pub fn convert_from2(f: &Fact, symbols: &SymbolTable) -> Result<crate::builder::Fact, error::Format> { unimplemented!() } }
+    impl Authorizer {
+        // ASSUMED (token/authorizer.rs Authorizer::new): an empty authorizer
+        #[verifier::external_body]
+        pub fn new() -> (r: Authorizer)
+            ensures r.blocks is None, r.execution_time is None, r.world.iterations == 0, r.public_key_to_block_id@.dom() =~= Set::<usize>::empty()
+        { unimplemented!() }
+    }
+    // C03 / C07 on the snapshot path: block j is registered in the key -> block map exactly when it carries an external key
+    pub open spec fn snap_keymap(blocks: Seq<Block>, n: int, m: Map<usize, Vec<usize>>) -> bool {
+        (forall|k: usize, j: usize| #[trigger] key_has(m, k, j) ==> j < n && blocks[j as int].external_key is Some)
+        && (forall|j: int| 0 <= j < n && (#[trigger] blocks[j]).external_key is Some ==> exists|k: usize| #[trigger] key_has(m, k, j as usize))
+    }
+    // everything from_snapshot has settled before it fills the world
+    pub open spec fn same_meta(a: Authorizer, b: Authorizer) -> bool {
+        a.blocks == b.blocks && a.public_key_to_block_id == b.public_key_to_block_id && a.token_origins == b.token_origins && a.limits == b.limits
+        && a.execution_time == b.execution_time && a.world.iterations == b.world.iterations && a.authorizer_block_builder == b.authorizer_block_builder && a.policies == b.policies
+    }
+    // one iteration of the block loop: the map is either unchanged (no external key) or block i was pushed under one key
+    pub proof fn lemma_snap_keymap_step(b0: Seq<Block>, b1: Seq<Block>, iu: usize, m0: Map<usize, Vec<usize>>, m1: Map<usize, Vec<usize>>)
+        requires b0.len() == iu as int, b1.len() == iu as int + 1, iu as int + 1 <= usize::MAX, forall|q: int| 0 <= q < iu as int ==> b1[q] == b0[q], snap_keymap(b0, iu as int, m0),
+                 b1[iu as int].external_key is None ==> m1 == m0,
+                 b1[iu as int].external_key is Some ==> exists|kid: usize| #[trigger] push_rel(m0, m1, kid, iu),
+        ensures snap_keymap(b1, iu as int + 1, m1)
+    {
+        let i = iu as int;
+        if b1[i].external_key is Some {
+            let kid = choose|kid: usize| #[trigger] push_rel(m0, m1, kid, iu);
+            let s0 = if m0.contains_key(kid) { m0[kid]@ } else { Seq::<usize>::empty() };
+            assert(m1[kid]@ == s0.push(iu));
+            assert(m1[kid]@[s0.len() as int] == iu);
+            assert(key_has(m1, kid, iu));
+            assert forall|k: usize, j: usize| #[trigger] key_has(m1, k, j) implies j < i + 1 && b1[j as int].external_key is Some by {
+                if k == kid {
+                    let w = choose|w: int| 0 <= w < m1[kid]@.len() && m1[kid]@[w] == j;
+                    if w < s0.len() { assert(s0[w] == j); assert(key_has(m0, k, j)); }
+                } else { assert(key_has(m0, k, j)); }
+            }
+            assert forall|j: int| 0 <= j < i + 1 && (#[trigger] b1[j]).external_key is Some implies exists|k: usize| #[trigger] key_has(m1, k, j as usize) by {
+                if j < i {
+                    assert(b0[j].external_key is Some);
+                    let k = choose|k: usize| #[trigger] key_has(m0, k, j as usize);
+                    if k == kid { let w = choose|w: int| 0 <= w < s0.len() && s0[w] == j as usize; assert(s0.push(iu)[w] == j as usize); }
+                    assert(key_has(m1, k, j as usize));
+                } else { assert(j as usize == iu); assert(key_has(m1, kid, j as usize)); }
+            }
+        } else {
+            assert forall|j: int| 0 <= j < i + 1 && (#[trigger] b1[j]).external_key is Some implies exists|k: usize| #[trigger] key_has(m1, k, j as usize) by {
+                assert(b0[j].external_key is Some);
+            }
+        }
+    }
+    pub open spec fn push_rel(m0: Map<usize, Vec<usize>>, m1: Map<usize, Vec<usize>>, k: usize, v: usize) -> bool {
+        m1.dom() == m0.dom().insert(k) && m1[k]@ == (if m0.contains_key(k) { m0[k]@ } else { Seq::<usize>::empty() }).push(v)
+        && forall|k2: usize| k2 != k && m0.contains_key(k2) ==> m1[k2] == m0[k2]
+    }
+    impl Authorizer {
+        //@extract biscuit-auth/src/token/authorizer/snapshot.rs :: impl Authorizer :: fn from_snapshot
+        //@ rewrites R19
+        //@ attr #[verifier::loop_isolation(false)]
+        //@ sub \(MIN_SCHEMA_VERSION\.\.=MAX_SCHEMA_VERSION\)\.contains\(&version\) => (MIN_SCHEMA_VERSION <= version && version <= MAX_SCHEMA_VERSION)
+        //@ sub crate::token::MIN_SCHEMA_VERSION => MIN_SCHEMA_VERSION
+        //@ sub crate::token::MAX_SCHEMA_VERSION => MAX_SCHEMA_VERSION
+        //@ sub world\s*\.authorizer_policies\s*\.iter\(\)\s*\.map\(\|policy\| proto_policy_to_policy\(policy, &symbols, version\)\)\s*\.collect::<Result<Vec<Policy>, error::Format>>\(\)\? => verif_policies_from(&world.authorizer_policies, &symbols, version)?
+        //@ sub Some\(execution_time\)\.filter\(\|_\w*\| execution_time > Duration::default\(\)\) => verif_nonzero(execution_time)
+        //@ sub public_key_to_block_id\s*\.entry\(authorizer\.symbols\.public_keys\.insert\(key\) as usize\)\s*\.or_default\(\)\s*\.push\(([^()]*)\); => let verif_kid = authorizer.symbols.public_keys.insert(key) as usize; verif_map_push(&mut public_key_to_block_id, verif_kid, \1); /*pushed*/
+        //@ sub authorizer\s*\.authorizer_block_builder\s*\.scopes\s*\.clone\(\)\s*\.iter\(\)\s*\.map\(\|s\| s\.convert\(&mut authorizer\.symbols\)\)\s*\.collect\(\) => crate::builder::verif_convert_scopes(&authorizer.authorizer_block_builder.scopes, &mut authorizer.symbols)
+        //@ sub crate::builder::Fact::convert_from\(&fact, &authorizer\.symbols\)\? => crate::builder::Fact::convert_from2(&fact, &authorizer.symbols)?
+        //@ sub super::Authorizer::new\(\) => Authorizer::new()
+        //@ sub crate::token::Scope:: => token::Scope::
+        //@ sub &origins => &origins
+        //@ ghost before "let mut public_key_to_block_id" :: let ghost a_lim = authorizer.limits; let ghost a_time = authorizer.execution_time;
+        //@ loop 2 invariant bound: i <= world.blocks@.len() && blocks@.len() == i
+        //@ loop 2 invariant map: snap_keymap(blocks@, i as int, public_key_to_block_id@)
+        //@ loop 2 invariant frame: authorizer.limits == a_lim && authorizer.execution_time == a_time && authorizer.blocks is None && authorizer.world.iterations == 0
+        //@ loop 2 decreases world.blocks@.len() - i
+        //@ ghost loop 2 start :: let ghost m0 = public_key_to_block_id@; let ghost b0 = blocks@;
+        //@ ghost after "/*pushed*/" #0 :: proof { assert(push_rel(m0, public_key_to_block_id@, verif_kid, i)); }
+        //@ ghost before "i += 1; } }" :: proof { lemma_snap_keymap_step(b0, blocks@, i, m0, public_key_to_block_id@); }
+        //@ ghost before "let mut authorizer_origin" :: let ghost a0 = authorizer; proof { if a0.blocks is Some { let arr = [token::Scope::Previous]; assert(arr@ =~= seq![token::Scope::Previous]); } }
+        //@ loop 3 ghost it3
+        //@ loop 3 invariant frame: same_meta(authorizer, a0)
+        //@ loop 4 ghost it4
+        //@ loop 4 invariant frame: same_meta(authorizer, a0)
+        //@ loop 5 ghost it5
+        //@ loop 5 invariant frame: same_meta(authorizer, a0)
+        //@ loop 6 ghost it6
+        //@ loop 6 invariant frame: same_meta(authorizer, a0)
+        //@ ensures blocks_nonempty: r is Ok && r->Ok_0.blocks is Some ==> r->Ok_0.blocks->Some_0@.len() >= 1
+        //@ ensures key_map: r is Ok && r->Ok_0.blocks is Some ==> snap_keymap(r->Ok_0.blocks->Some_0@, r->Ok_0.blocks->Some_0@.len() as int, r->Ok_0.public_key_to_block_id@)
+        //@ ensures key_map_empty: r is Ok && r->Ok_0.blocks is None ==> forall|k: usize, j: usize| !key_has(r->Ok_0.public_key_to_block_id@, k, j)
+        //@ ensures token_origins: r is Ok && r->Ok_0.blocks is Some ==> has_tset(r->Ok_0.token_origins.0.inner@, seq![token::Scope::Previous], default_trust(), r->Ok_0.blocks->Some_0@.len() as usize, r->Ok_0.public_key_to_block_id@)
+        //@ ensures limits: r is Ok ==> r->Ok_0.limits.max_facts == input.limits.max_facts && r->Ok_0.limits.max_iterations == input.limits.max_iterations && r->Ok_0.limits.max_time.nanos == input.limits.max_time
+        //@ ensures counters: r is Ok ==> r->Ok_0.world.iterations == input.world.iterations && (r->Ok_0.execution_time is Some <==> input.execution_time > 0) && (r->Ok_0.execution_time is Some ==> r->Ok_0.execution_time->Some_0.nanos == input.execution_time)
+        //@ ensures version: r is Ok ==> input.world.version is Some && MIN_SCHEMA_VERSION <= input.world.version->Some_0 <= MAX_SCHEMA_VERSION
         //@end
     }
 }
@@ -437,6 +594,11 @@ pub mod lspec {
 //@canary authorizer-fact-origin :: token::builder::authorizer::AuthorizerBuilder::build_inner :: authorizer_origin.insert(usize::MAX); ==>> authorizer_origin.insert(0);
 //@canary key-map-first-block-as-authority :: token::builder::authorizer::AuthorizerBuilder::build_inner :: .push(i + 1); ==>> .push(if i > 0 { i + 1 } else { 0 });
 //@canary-requires token::builder::authorizer::AuthorizerBuilder::build_inner
+//@canary snapshot-empty-blocks-some :: token::authorizer::snapshot::Authorizer::from_snapshot :: if !blocks.is_empty() { ==>> if true {
+//@canary snapshot-key-map-index :: token::authorizer::snapshot::Authorizer::from_snapshot :: .push(i); ==>> .push(i + 1);
+//@canary snapshot-iterations-dropped :: token::authorizer::snapshot::Authorizer::from_snapshot :: authorizer.world.iterations = world.iterations; ==>> {}
+//@canary snapshot-limits-mixed :: token::authorizer::snapshot::Authorizer::from_snapshot :: max_iterations: limits.max_iterations, ==>> max_iterations: limits.max_facts,
+//@canary-requires token::authorizer::snapshot::Authorizer::from_snapshot
 //@canary-requires token::builder::authorizer::load_and_translate_block
 } // verus!
 fn main() {}
